@@ -249,7 +249,7 @@ def g_space():
     out = []
     for T in TYPES:
         for kind in KINDS:
-            for mode in ('ctor-first', 'ctor-second', 'connect-first', 'connect-second'):
+            for mode in ('ctor-first', 'ctor-second', 'connect-first', 'connect-second', 'ctor-busy', 'connect-busy'):
                 out.append({'space': 'G', 'nstype': T, 'kind': kind, 'mode': mode})
     return out
 
@@ -772,6 +772,8 @@ def run_guardrail(ctx, imp, g):
         ctx.mark_inconclusive(f'guard-rail setup raised {type(e).__name__}: {str(e)[:200]}')
         return
     stage = 'ctor' if mode.startswith('ctor') else 'connect'
+    if mode.endswith('busy'):
+        return run_busy(ctx, topo, hs[-1], T, itype, stage, g)
     expect_refusal = R.guardrailed(T, itype)
     ctx.count('cases:G')
     ctx.seen(g, True)
@@ -803,6 +805,54 @@ def run_guardrail(ctx, imp, g):
                           'only the pinned combinations are refused when an interface is connected', wit)
         else:
             ctx.count(f'guardrail:{stage}:allowed-as-pinned')
+
+
+def run_busy(ctx, topo, h, T, itype, stage, g):
+    """The interface already belongs to a legal service ('home'); connecting it to a second one is refused at once - and
+    a refusal does nothing else: 'home' keeps the interface and the slice keeps its verdict."""
+    from fim.user import ServiceType
+    try:
+        home = topo.add_network_service(name='home', nstype=ServiceType.L2Bridge, interfaces=[h])
+    except Exception:
+        ctx.count('guardrail:busy:setup-refused')
+        return
+
+    def state():
+        try:
+            topo.validate()
+            v = 'accept'
+        except Exception as e:
+            v = 'reject'
+        sv = topo.network_services['home']
+        return (v, sorted(i.name for i in sv.interface_list), sorted(p.name for p in (h.get_peers() or [])))
+    second = None
+    if stage == 'connect':
+        try:
+            second = topo.add_network_service(name='gsvc', nstype=ServiceType[T])      # the (still empty) second service is part of 'before'
+        except Exception:
+            ctx.count('guardrail:busy:setup-refused')
+            return
+    before = state()
+    refused = False
+    try:
+        if stage == 'ctor':
+            topo.add_network_service(name='gsvc', nstype=ServiceType[T], interfaces=[h])
+        else:
+            second.connect_interface(h)
+    except Exception as e:
+        refused = True
+    ctx.count('cases:G')
+    ctx.count(f'guardrail:{stage}:busy-interface-attempted')
+    ctx.seen(g, True)
+    wit = {'guardrail-case': g, 'service type': T, 'interface type': itype, 'stage': stage}
+    if not refused:
+        ctx.violation('C10/connected-interface-accepted-by-second-service', 'an interface that already belongs to a service is refused '
+                      'at once by a second one', wit)
+        return
+    after = state()
+    if after != before:
+        ctx.violation('C10/refused-connect-changes-the-slice', 'a refused connection is only refused: the service the interface belongs to '
+                      'keeps it and validation gives the same verdict', dict(wit, before=list(before), after=list(after)))
 
 
 def check_pin(ctx):
